@@ -148,6 +148,7 @@ def gen_persist(r, ncases, maxlen=60):
         n = r.range(1, maxlen)
         # some cases concentrate on one or two ids so that overwrite / delete / reload chains are long
         ids_bias = r.sample(IDS, r.pick([1, 2, 4]))
+        last_saved = {}   # (kind, id) -> token of the last saved map
         for _ in range(n):
             fid = gen_id(r)
             if fid in IDS and r.chance(0.7):
@@ -155,10 +156,25 @@ def gen_persist(r, ncases, maxlen=60):
             kind = r.pick(KINDS)
             c = r.below(100)
             if c < 28:
+                tok = gen_rpm_data(r) if kind == "rpm" else gen_int_map(r)
+                prev = last_saved.get((kind, fid))
+                if prev and "," in prev and r.chance(0.35):
+                    # overwrite with a RELATED map: a strict subset of what is stored (same values), or the same keys with
+                    # one value changed - an overwrite must take effect whatever the new content has in common with the old
+                    ents = prev.split(",")
+                    if r.chance(0.6):
+                        keep = [e for e in ents if r.chance(0.6)] or ents[:1]
+                        tok = ",".join(keep)
+                    else:
+                        k0, v0 = ents[0].split(":")
+                        ents[0] = k0 + ":" + (v0[:-1] + ("1" if v0[-1] != "1" else "2"))
+                        tok = ",".join(ents)
                 if kind == "rpm":
-                    ops.append(f"ps.saverpm id={fid} data={gen_rpm_data(r)}")
+                    ops.append(f"ps.saverpm id={fid} data={tok}")
                 else:
-                    ops.append(f"ps.savemap id={fid} m={gen_int_map(r)}")
+                    ops.append(f"ps.savemap id={fid} m={tok}")
+                last_saved[(kind, fid)] = tok
+                ops.append(f"ps.load{kind} id={fid}")
             elif c < 62:
                 ops.append(f"ps.load{kind} id={fid}")
             elif c < 72:
